@@ -161,6 +161,9 @@ func ModOps(full bool) []Op {
 	add("AddRetract", "v1.0.0", "v1.0.0", "")
 	add("AddRetract", "v1.1.0", "v1.1.0", "bad")
 	add("AddRetract", "v1.0.0", "v1.1.0", "range is bad")
+	// rationales of several lines and paragraphs
+	add("AddRetract", "v1.2.0", "v1.2.0", "two\nlines")
+	add("AddRetract", "v1.3.0", "v1.3.0", "first paragraph\n\nsecond paragraph")
 	add("DropRetract", "v1.0.0", "v1.0.0")
 	add("DropRetract", "v1.1.0", "v1.1.0")
 	add("DropRetract", "v1.0.0", "v1.1.0")
